@@ -10,7 +10,7 @@ import ast
 
 from ..core import rule
 from ..model import AnalysisError
-from ..norm import Norm, expected
+from ..norm import Norm, expected, value_cases
 from ..poly import Poly
 from ..paths import walk_no_nested, must_on_all_paths, Walker, const_guard
 from ..effects import is_call_to, writes_in
@@ -131,13 +131,19 @@ def r10_3(ctx):
             tname = c.args[0].id
             td = [d for d in sc.defs.get(tname, []) if d.kind == "assign" and sc.order[d.stmt] < sc.order[c] and sc.enclosing_loops(d.stmt) and sc.enclosing_loops(d.stmt)[-1][2] is sc.enclosing_loops(c)[-1][2]]
             ok = ok and len(td) == 1 and Norm(None).key(td[0].value) == "self.eval_at_control(stage,var,%s)" % kv
-            vd = [d for d in sc.defs.get("value_k", []) if d.kind == "assign" and sc.enclosing_loops(d.stmt) and sc.enclosing_loops(d.stmt)[-1][2] is sc.enclosing_loops(c)[-1][2]]
-            cols = [d for d in vd if isinstance(d.value, ast.Subscript)]
-            ok = ok and len(cols) == 1 and Norm(None).key(cols[0].value) == "value[:,%s]" % kv
-            if ok:
-                gs = [Norm(None).key(t) for t, p in sc.guards(cols[0].stmt) if p]
-                want = Norm(None).key(ast.parse("target.numel()*(self.N)==value.numel() or target.numel()*(self.N+1)==value.numel()", mode="eval").body)
-                ok = gs == [want]
+            # value_k = value[:,k] if <the array has N or N+1 columns> else value   (canonical form of default-then-override)
+            kn = Norm(sc, no_expand=(tname, "value")).key
+            cases = value_cases(sc, "value_k", key=kn, within=sc.enclosing_loops(c)[-1][2])
+            want = Norm(None).key(ast.parse("target.numel()*(self.N)==value.numel() or target.numel()*(self.N+1)==value.numel()", mode="eval").body)
+            want = want.replace("target", tname)
+            seen = {}
+            for cd, leaf in cases:
+                own = [c_ for c_ in cd if c_[0] == want]
+                if len(own) != 1:
+                    ok = False
+                    continue
+                seen[own[0][1]] = Norm(None).key(leaf)
+            ok = ok and seen == {True: "value[:,%s]" % kv, False: "value"}
             ctx.check(ok, "%s.set_initial: target at node k receives column k" % cname, detail="array guess column given to another node/interval",
                       expected="for k in range(N)+[-1]: target = eval_at_control(stage, var, k); value_k = value[:,k] when the array has N or N+1 columns", found=ast.unparse(c), fi=f, node=c)
         # expression guesses are sampled on the same node sequence
